@@ -10,14 +10,14 @@ INVS = {
     "C06": ["ReformLocality"],
     "C10": ["RoundedExactlyOnce"],
     "C11": ["SpecPrecedence"],
-    "C13": ["UnitsByFactor", "SpecPrecedence"],
+    "C13": ["UnitsByFactor", "SpecPrecedence", "AltUnitEquivalence"],
 }
 
 
 def run_mc(chk, quick, which):
     invs = INVS[which]
     cfg = tlc.SPEC_DIR / f"_gen_mcdag_{which}.cfg"
-    cfg.write_text(f"CONSTANT Small = {'TRUE' if quick else 'FALSE'}\nSPECIFICATION Spec\n" + "".join(f"INVARIANT {i}\n" for i in invs) + "CHECK_DEADLOCK FALSE\n")
+    cfg.write_text(f"CONSTANTS\n  Small = {'TRUE' if quick else 'FALSE'}\n  WithPid = FALSE\nSPECIFICATION Spec\n" + "".join(f"INVARIANT {i}\n" for i in invs) + "CHECK_DEADLOCK FALSE\n")
     try:
         res = tlc.run("MC_Dag", cfg.name, workdir=chk.work, workers=16, timeout=3400)
     finally:
@@ -30,6 +30,11 @@ def run_mc(chk, quick, which):
     if "NoWitness" not in w.violated:
         raise RuntimeError("vacuous MC_Dag: no witness configuration (valid, >=3 computable targets, rounded rule, time node, group sum)")
     chk.notes["mc_dag_witness"] = "exists"
+    if which == "C13":
+        # design-level root cause of the known finding (input in another unit loses a p_id aggregation): with a p_id
+        # aggregation in the universe the specified pipeline itself violates AltUnitEquivalence
+        p = tlc.run("MC_Dag", "MC_Dag_altunit_pid.cfg", workdir=chk.work, workers=4, timeout=900)
+        chk.notes["alt_unit_with_pid_aggregation"] = "violated at the specification level (expected: root cause of the C13 known finding)" if "AltUnitEquivalence" in p.violated else "holds"
 
 
 def derive_conformance(chk, date, data_cols, variations, tag):
